@@ -500,7 +500,7 @@ func (e *Engine) runPath(fn *ssa.Function) {
 	}
 	// classify panics / exits / deadlocks as violations when the harness asks for it
 	switch e.outcome.Kind {
-	case "panic", "exit", "deadlock":
+	case "panic", "exit", "deadlock", "hang":
 		if e.reportPanics {
 			label := e.outcome.Kind + ":" + firstLine(e.outcome.Detail)
 			if _, seen := e.Violations[label]; !seen {
